@@ -9,7 +9,7 @@ from traits.trait_set_object import TraitSet
 NPOOL = 3
 
 
-def make_node_class():
+def make_node_class(eq=False):
     class Node(HasTraits):
         value = Int
         tagged = Int(tag=True)
@@ -28,15 +28,27 @@ def make_node_class():
 
         def __repr__(self):
             return "N%d" % self.nid
+    if eq:
+        # all nodes compare equal (value-based __eq__ on HasTraits classes
+        # is common); identity is what observation must go by
+        Node.__eq__ = lambda self, other: isinstance(other, Node)
+        Node.__hash__ = lambda self: 7
     return Node
 
 
 _SHARED = None
 
 
-def make_pool(fresh_class=False):
-    global _SHARED
-    if fresh_class:
+_SHARED_EQ = None
+
+
+def make_pool(fresh_class=False, eq=False):
+    global _SHARED, _SHARED_EQ
+    if eq:
+        if _SHARED_EQ is None:
+            _SHARED_EQ = make_node_class(eq=True)
+        cls = _SHARED_EQ
+    elif fresh_class:
         cls = make_node_class()
     else:
         if _SHARED is None:
